@@ -1504,6 +1504,70 @@ func pogsRoundTrip(t typ, gt reflect.Type, fs []fld) {
 		}()
 		emit(J{"k": "roundtrip", "who": "pogs/" + variant, "type": t.name, "field": fmt.Sprint("which=", w), "ok": ok, "what": what})
 	}
+	// Insert into a struct that already has contents: what Extract (and nothing else is observable) returns afterwards
+	// must not depend on what the struct held before - Insert writes every active member, null / default included.
+	mk := func(w int, full bool) reflect.Value {
+		gv := reflect.New(gt)
+		if full {
+			populate(gv.Elem(), w+3)
+		}
+		if wf := gv.Elem().FieldByName("Which"); wf.IsValid() {
+			wf.SetUint(uint64(w))
+		}
+		clearInactive(t.id, gv.Elem())
+		return gv
+	}
+	for wi, w := range variants {
+		w2 := variants[(wi+1)%len(variants)]
+		for bi, b := range []struct {
+			w    int
+			full bool
+		}{{w, false}, {w2, false}, {w2, true}} {
+			if bi > 0 && len(variants) == 1 && !b.full {
+				continue
+			}
+			ok, what := true, ""
+			func() {
+				defer func() {
+					if p := recover(); p != nil {
+						ok, what = false, fmt.Sprint("panic: ", p)
+					}
+				}()
+				_, seg, _ := capnp.NewMessage(capnp.SingleSegment(nil))
+				s, _ := t.mk(seg)
+				if err := pogs.Insert(t.id, s, mk(w, true).Interface()); err != nil {
+					ok, what = false, "insert: "+err.Error()
+					return
+				}
+				if err := pogs.Insert(t.id, s, mk(b.w, b.full).Interface()); err != nil {
+					ok, what = false, "second insert: "+err.Error()
+					return
+				}
+				over := reflect.New(gt)
+				if err := pogs.Extract(over.Interface(), t.id, s); err != nil {
+					ok, what = false, "extract: "+err.Error()
+					return
+				}
+				_, seg2, _ := capnp.NewMessage(capnp.SingleSegment(nil))
+				s2, _ := t.mk(seg2)
+				if err := pogs.Insert(t.id, s2, mk(b.w, b.full).Interface()); err != nil {
+					ok, what = false, "fresh insert: "+err.Error()
+					return
+				}
+				fresh := reflect.New(gt)
+				if err := pogs.Extract(fresh.Interface(), t.id, s2); err != nil {
+					ok, what = false, "fresh extract: "+err.Error()
+					return
+				}
+				if !reflect.DeepEqual(over.Interface(), fresh.Interface()) {
+					a, _ := json.Marshal(over.Interface())
+					c, _ := json.Marshal(fresh.Interface())
+					ok, what = false, fmt.Sprintf("inserted over a populated struct and extracted: %s; inserted into a fresh struct and extracted: %s", a, c)
+				}
+			}()
+			emit(J{"k": "roundtrip", "who": "pogs/" + variant, "type": t.name, "field": fmt.Sprintf("which=%d overwritten-by=%d/%v", w, b.w, b.full), "ok": ok, "what": what})
+		}
+	}
 }
 
 func main() {
